@@ -110,6 +110,66 @@ theorem Cnt.getDom_eq (l : Box) (k : Nat) (h : k < l.length) : getDom l k = l[k]
 theorem Cnt.getDom_mem (l : Box) (k : Nat) (h : k < l.length) : getDom l k ∈ l := by
   rw [Cnt.getDom_eq l k h]; exact List.getElem_mem h
 
+theorem Cnt.getI_snoc_lt (ts : List Int) (v : Int) (j : Nat) (h : j < ts.length) :
+    getI (ts ++ [v]) j = getI ts j := by
+  simp [getI, List.getD, List.getElem?_append_left h]
+
+theorem Cnt.getI_snoc_eq (ts : List Int) (v : Int) : getI (ts ++ [v]) ts.length = v := by
+  simp [getI, List.getD]
+
+theorem Cnt.getDom_snoc_lt (xs : Box) (y : Dom) (j : Nat) (h : j < xs.length) :
+    getDom (xs ++ [y]) j = getDom xs j := by
+  simp [getDom, List.getD, List.getElem?_append_left h]
+
+theorem Cnt.getDom_snoc_eq (xs : Box) (y : Dom) : getDom (xs ++ [y]) xs.length = y := by
+  simp [getDom, List.getD]
+
+/-- bounds of a box `xs ++ [y]` are attained when those of `xs` and of `y` are -/
+theorem Cnt.snoc_bounds (P : List Int → Prop) (xs : Box) (y : Dom) (hy : y.1 ≤ y.2)
+    (hx : ∀ j, j < xs.length → ∀ w, (w = (getDom xs j).1 ∨ w = (getDom xs j).2) →
+      ∃ ts v, inBox ts xs ∧ inDom v y ∧ P (ts ++ [v]) ∧ getI ts j = w)
+    (hy1 : ∃ ts, inBox ts xs ∧ P (ts ++ [y.1])) (hy2 : ∃ ts, inBox ts xs ∧ P (ts ++ [y.2])) :
+    ∀ j, j < (xs ++ [y]).length →
+      (∃ t, inBox t (xs ++ [y]) ∧ P t ∧ getI t j = (getDom (xs ++ [y]) j).1) ∧
+      (∃ t, inBox t (xs ++ [y]) ∧ P t ∧ getI t j = (getDom (xs ++ [y]) j).2) := by
+  intro j hj
+  rw [List.length_append, List.length_singleton] at hj
+  by_cases hjl : j < xs.length
+  · rw [Cnt.getDom_snoc_lt _ _ _ hjl]
+    have main : ∀ w, (w = (getDom xs j).1 ∨ w = (getDom xs j).2) →
+        ∃ t, inBox t (xs ++ [y]) ∧ P t ∧ getI t j = w := by
+      intro w hw
+      obtain ⟨ts, v, hts, hv, hP, hg⟩ := hx j hjl w hw
+      exact ⟨ts ++ [v], (Cnt.inBox_snoc _ _ _ _).mpr ⟨hts, hv⟩, hP, by
+        rw [Cnt.getI_snoc_lt _ _ _ (by rw [inBox_length hts]; exact hjl)]; exact hg⟩
+    exact ⟨main _ (Or.inl rfl), main _ (Or.inr rfl)⟩
+  · have hjn : j = xs.length := by omega
+    subst hjn
+    rw [Cnt.getDom_snoc_eq]
+    obtain ⟨t1, ht1, hP1⟩ := hy1
+    obtain ⟨t2, ht2, hP2⟩ := hy2
+    refine ⟨⟨_, (Cnt.inBox_snoc _ _ _ _).mpr ⟨ht1, Int.le_refl _, hy⟩, hP1, ?_⟩,
+      ⟨_, (Cnt.inBox_snoc _ _ _ _).mpr ⟨ht2, hy, Int.le_refl _⟩, hP2, ?_⟩⟩
+    · rw [← inBox_length ht1, Cnt.getI_snoc_eq]
+    · rw [← inBox_length ht2, Cnt.getI_snoc_eq]
+
+/-- the tuples of all minima / all maxima -/
+theorem Cnt.inBox_mins : ∀ {xs : Box}, Box.Nonempty xs → inBox (xs.map (·.1)) xs
+  | [], _ => trivial
+  | _ :: _, h => ⟨⟨Int.le_refl _, (Box.nonempty_cons.mp h).1⟩, Cnt.inBox_mins (Box.nonempty_cons.mp h).2⟩
+
+theorem Cnt.inBox_maxs : ∀ {xs : Box}, Box.Nonempty xs → inBox (xs.map (·.2)) xs
+  | [], _ => trivial
+  | _ :: _, h => ⟨⟨(Box.nonempty_cons.mp h).1, Int.le_refl _⟩, Cnt.inBox_maxs (Box.nonempty_cons.mp h).2⟩
+
+theorem Cnt.getI_mins (xs : Box) (j : Nat) (h : j < xs.length) :
+    getI (xs.map (·.1)) j = (getDom xs j).1 := by
+  simp [getI, getDom, List.getD, List.getElem?_eq_getElem h]
+
+theorem Cnt.getI_maxs (xs : Box) (j : Nat) (h : j < xs.length) :
+    getI (xs.map (·.2)) j = (getDom xs j).2 := by
+  simp [getI, getDom, List.getD, List.getElem?_eq_getElem h]
+
 /-- pin position `k` of a box to the value `v` -/
 def Cnt.pin (B : Box) (k : Nat) (v : Int) : Box := B.set k (v, v)
 
@@ -152,5 +212,1086 @@ theorem Cnt.filter_length_set (p : Dom → Bool) (e : Dom) : ∀ (B : Box) (k : 
     simp only [List.set_cons_succ, List.filter_cons]
     cases p d <;> simp <;> omega
   | [], _, hk => by simp at hk
+
+/-! ### counting the domains fixed to / excluding a value -/
+
+theorem Cnt.cntOut_nil (a : Int) : cntOut a [] = 0 := rfl
+theorem Cnt.cntFix_nil (a : Int) : cntFix a [] = 0 := rfl
+
+theorem Cnt.cntOut_cons (a : Int) (d : Dom) (ds : Box) :
+    cntOut a (d :: ds) = cntOut a ds + (if d.1 > a ∨ d.2 < a then 1 else 0) := by
+  simp only [cntOut, List.filter_cons]
+  by_cases h : d.1 > a ∨ d.2 < a <;> simp [h]
+
+theorem Cnt.cntFix_cons (a : Int) (d : Dom) (ds : Box) :
+    cntFix a (d :: ds) = cntFix a ds + (if d.1 = a ∧ d.2 = a then 1 else 0) := by
+  simp only [cntFix, List.filter_cons]
+  by_cases h : d.1 = a ∧ d.2 = a
+  · simp [h]
+  · have : (d.1 == a && d.2 == a) = false := by
+      simp only [Bool.and_eq_false_iff, beq_eq_false_iff_ne]; omega
+    simp [this, h]
+
+theorem Cnt.count_cons (a x : Int) (xs : List Int) :
+    (x :: xs).count a = xs.count a + (if x = a then 1 else 0) := by
+  simp [List.count_cons]
+
+/-- fixed and excluded domains are disjoint -/
+theorem Cnt.fix_add_out_le (a : Int) : ∀ (B : Box), B.Nonempty → cntFix a B + cntOut a B ≤ B.length
+  | [], _ => by simp [Cnt.cntOut_nil, Cnt.cntFix_nil]
+  | d :: ds, h => by
+    rw [Box.nonempty_cons] at h
+    have := Cnt.fix_add_out_le a ds h.2
+    rw [Cnt.cntFix_cons, Cnt.cntOut_cons, List.length_cons]
+    split <;> split <;> omega
+
+/-- a free domain (contains `a`, not fixed) makes the inequality strict -/
+theorem Cnt.fix_add_out_lt (a : Int) : ∀ (B : Box), B.Nonempty →
+    (∃ d ∈ B, d.1 ≤ a ∧ a ≤ d.2 ∧ ¬ (d.1 = a ∧ d.2 = a)) → cntFix a B + cntOut a B < B.length
+  | [], _, h => by simp at h
+  | d :: ds, h, hex => by
+    have h' := Box.nonempty_cons.mp h
+    have hle := Cnt.fix_add_out_le a ds h'.2
+    rw [Cnt.cntFix_cons, Cnt.cntOut_cons, List.length_cons]
+    obtain ⟨e, he, hfree⟩ := hex
+    rcases List.mem_cons.mp he with h1 | h1
+    · subst h1
+      split <;> split <;> omega
+    · have := Cnt.fix_add_out_lt a ds h'.2 ⟨e, h1, hfree⟩
+      split <;> split <;> omega
+
+theorem Cnt.cntFix_le_count (a : Int) : ∀ {t : List Int} {B : Box}, inBox t B → cntFix a B ≤ t.count a
+  | [], [], _ => by simp [Cnt.cntFix_nil]
+  | x :: xs, d :: ds, h => by
+    have := Cnt.cntFix_le_count a h.2
+    have hx : d.1 ≤ x ∧ x ≤ d.2 := h.1
+    rw [Cnt.cntFix_cons, Cnt.count_cons]
+    split <;> split <;> omega
+  | [], _ :: _, h => by simp [inBox] at h
+  | _ :: _, [], h => by simp [inBox] at h
+
+theorem Cnt.count_add_out_le (a : Int) : ∀ {t : List Int} {B : Box}, inBox t B →
+    t.count a + cntOut a B ≤ B.length
+  | [], [], _ => by simp [Cnt.cntOut_nil]
+  | x :: xs, d :: ds, h => by
+    have := Cnt.count_add_out_le a h.2
+    have hx : d.1 ≤ x ∧ x ≤ d.2 := h.1
+    rw [Cnt.cntOut_cons, Cnt.count_cons, List.length_cons]
+    split <;> split <;> omega
+  | [], _ :: _, h => by simp [inBox] at h
+  | _ :: _, [], h => by simp [inBox] at h
+
+/-- every count between the two bounds is realised by a tuple of the box -/
+theorem Cnt.exists_count (a : Int) : ∀ (B : Box) (m : Nat), B.Nonempty → cntFix a B ≤ m →
+    m + cntOut a B ≤ B.length → ∃ t, inBox t B ∧ t.count a = m
+  | [], m, _, _, h2 => ⟨[], trivial, by simp at h2; simp [h2]⟩
+  | d :: ds, m, h, h1, h2 => by
+    have h' := Box.nonempty_cons.mp h
+    have hle := Cnt.fix_add_out_le a ds h'.2
+    rw [Cnt.cntFix_cons] at h1
+    rw [Cnt.cntOut_cons, List.length_cons] at h2
+    by_cases hin : d.1 ≤ a ∧ a ≤ d.2
+    · -- `a` is available here: use it when still needed
+      by_cases hm : cntFix a ds < m
+      · obtain ⟨t, ht, hc⟩ := Cnt.exists_count a ds (m - 1) h'.2 (by omega) (by split at h2 <;> omega)
+        exact ⟨a :: t, ⟨hin, ht⟩, by rw [Cnt.count_cons, hc]; simp; omega⟩
+      · -- not needed: then `d` is not fixed, pick a bound different from `a`
+        have hnf : ¬ (d.1 = a ∧ d.2 = a) := by intro hf; rw [if_pos hf] at h1; omega
+        rw [if_neg hnf] at h1
+        obtain ⟨t, ht, hc⟩ := Cnt.exists_count a ds m h'.2 (by omega) (by split at h2 <;> omega)
+        by_cases h1a : d.1 = a
+        · exact ⟨d.2 :: t, ⟨⟨h'.1, Int.le_refl _⟩, ht⟩, by
+            rw [Cnt.count_cons, hc, if_neg (by omega)]; rfl⟩
+        · exact ⟨d.1 :: t, ⟨⟨Int.le_refl _, h'.1⟩, ht⟩, by
+            rw [Cnt.count_cons, hc, if_neg h1a]; rfl⟩
+    · have hout : d.1 > a ∨ d.2 < a := by omega
+      rw [if_pos hout] at h2
+      rw [if_neg (by omega)] at h1
+      obtain ⟨t, ht, hc⟩ := Cnt.exists_count a ds m h'.2 (by omega) (by omega)
+      exact ⟨d.1 :: t, ⟨⟨Int.le_refl _, h'.1⟩, ht⟩, by
+        rw [Cnt.count_cons, hc, if_neg (by omega)]; rfl⟩
+
+theorem Cnt.cntFix_pointBox (a : Int) : ∀ (t : List Int), cntFix a (pointBox t) = t.count a
+  | [] => rfl
+  | x :: xs => by
+    have := Cnt.cntFix_pointBox a xs
+    simp only [pointBox, List.map_cons] at *
+    rw [Cnt.cntFix_cons, Cnt.count_cons, this]
+    simp
+
+theorem Cnt.cntOut_pointBox (a : Int) : ∀ (t : List Int), cntOut a (pointBox t) + t.count a = t.length
+  | [] => rfl
+  | x :: xs => by
+    have := Cnt.cntOut_pointBox a xs
+    simp only [pointBox, List.map_cons] at *
+    rw [Cnt.cntOut_cons, Cnt.count_cons, List.length_cons]
+    split <;> split <;> omega
+
+/-! ### `excludeVal` and `forceVal` -/
+
+theorem Cnt.excludeVal_eq (a : Int) (d : Dom) :
+    excludeVal a d = if d.1 = a ∧ d.2 > a then (a + 1, d.2)
+      else if d.1 < a ∧ d.2 = a then (d.1, a - 1) else d := by
+  simp only [excludeVal, Bool.and_eq_true, beq_iff_eq, decide_eq_true_eq]
+
+theorem Cnt.forceVal_eq (a : Int) (d : Dom) :
+    forceVal a d = if d.1 ≤ a ∧ a ≤ d.2 then (a, a) else d := by
+  simp only [forceVal, Bool.and_eq_true, decide_eq_true_eq]
+
+theorem Cnt.excludeVal_le (a : Int) (d : Dom) :
+    d.1 ≤ (excludeVal a d).1 ∧ (excludeVal a d).2 ≤ d.2 := by
+  rw [Cnt.excludeVal_eq]; split
+  · simp; omega
+  · split <;> (try simp) <;> omega
+
+theorem Cnt.excludeVal_nonempty (a : Int) (d : Dom) (h : d.1 ≤ d.2) :
+    (excludeVal a d).1 ≤ (excludeVal a d).2 := by
+  rw [Cnt.excludeVal_eq]; split
+  · simp; omega
+  · split <;> (try simp) <;> omega
+
+/-- after `excludeVal` the value `a` is a bound only of a domain fixed to `a` -/
+theorem Cnt.excludeVal_bound (a : Int) (d : Dom) (_h : d.1 ≤ d.2)
+    (hb : (excludeVal a d).1 = a ∨ (excludeVal a d).2 = a) :
+    (excludeVal a d).1 = a ∧ (excludeVal a d).2 = a := by
+  rw [Cnt.excludeVal_eq] at *
+  split at hb
+  · simp at hb; omega
+  · split at hb
+    · simp at hb; omega
+    · rename_i h1 h2; rw [if_neg h1, if_neg h2]; omega
+
+theorem Cnt.excludeVal_idem (a : Int) (d : Dom) : excludeVal a (excludeVal a d) = excludeVal a d := by
+  rw [Cnt.excludeVal_eq a d]
+  split
+  · rw [Cnt.excludeVal_eq]; simp; omega
+  · split
+    · rw [Cnt.excludeVal_eq]; simp; omega
+    · rename_i h1 h2; rw [Cnt.excludeVal_eq, if_neg h1, if_neg h2]
+
+theorem Cnt.excludeVal_fix (a : Int) (d : Dom) (_h : d.1 ≤ d.2) :
+    ((excludeVal a d).1 = a ∧ (excludeVal a d).2 = a) ↔ (d.1 = a ∧ d.2 = a) := by
+  rw [Cnt.excludeVal_eq]; split
+  · simp; omega
+  · split
+    · simp; omega
+    · exact Iff.rfl
+
+theorem Cnt.forceVal_le (a : Int) (d : Dom) :
+    d.1 ≤ (forceVal a d).1 ∧ (forceVal a d).2 ≤ d.2 := by
+  rw [Cnt.forceVal_eq]; split <;> (try simp) <;> omega
+
+theorem Cnt.forceVal_nonempty (a : Int) (d : Dom) (h : d.1 ≤ d.2) :
+    (forceVal a d).1 ≤ (forceVal a d).2 := by
+  rw [Cnt.forceVal_eq]; split <;> (try simp) <;> omega
+
+/-- after `forceVal` no domain contains `a` without being fixed to it -/
+theorem Cnt.forceVal_free (a : Int) (d : Dom)
+    (h1 : (forceVal a d).1 ≤ a) (h2 : a ≤ (forceVal a d).2) :
+    (forceVal a d).1 = a ∧ (forceVal a d).2 = a := by
+  rw [Cnt.forceVal_eq] at *
+  by_cases hp : d.1 ≤ a ∧ a ≤ d.2
+  · rw [if_pos hp]; exact ⟨rfl, rfl⟩
+  · rw [if_neg hp] at h1 h2 ⊢; omega
+
+theorem Cnt.forceVal_idem (a : Int) (d : Dom) : forceVal a (forceVal a d) = forceVal a d := by
+  rw [Cnt.forceVal_eq a d]
+  split
+  · rw [Cnt.forceVal_eq]; simp
+  · rename_i h1; rw [Cnt.forceVal_eq, if_neg h1]
+
+theorem Cnt.forceVal_out (a : Int) (d : Dom) :
+    ((forceVal a d).1 > a ∨ (forceVal a d).2 < a) ↔ (d.1 > a ∨ d.2 < a) := by
+  rw [Cnt.forceVal_eq]; split
+  · simp; omega
+  · exact Iff.rfl
+
+theorem Cnt.map_le_mem (f : Dom → Dom) :
+    ∀ (B : Box), (∀ d ∈ B, d.1 ≤ (f d).1 ∧ (f d).2 ≤ d.2) → Box.le (B.map f) B
+  | [], _ => trivial
+  | d :: ds, hf => ⟨hf d (by simp), Cnt.map_le_mem f ds (fun e he => hf e (by simp [he]))⟩
+
+theorem Cnt.map_le (f : Dom → Dom) (hf : ∀ d, d.1 ≤ (f d).1 ∧ (f d).2 ≤ d.2) (B : Box) :
+    Box.le (B.map f) B := Cnt.map_le_mem f B (fun d _ => hf d)
+
+theorem Cnt.map_nonempty (f : Dom → Dom) (hf : ∀ d : Dom, d.1 ≤ d.2 → (f d).1 ≤ (f d).2)
+    {B : Box} (h : B.Nonempty) : Box.Nonempty (B.map f) := by
+  intro e he
+  obtain ⟨d, hd, rfl⟩ := List.mem_map.mp he
+  exact hf d (h d hd)
+
+theorem Cnt.map_idem (f : Dom → Dom) (hf : ∀ d, f (f d) = f d) (B : Box) :
+    (B.map f).map f = B.map f := by
+  rw [List.map_map]; apply List.map_congr_left; intro d _; exact hf d
+
+/-- a tuple with no more `a`s than fixed domains survives `excludeVal` -/
+theorem Cnt.exclude_keep (a : Int) : ∀ {t : List Int} {B : Box}, inBox t B →
+    t.count a ≤ cntFix a B → inBox t (B.map (excludeVal a))
+  | [], [], _, _ => trivial
+  | x :: xs, d :: ds, h, hc => by
+    have hge := Cnt.cntFix_le_count a h.2
+    have hx : d.1 ≤ x ∧ x ≤ d.2 := h.1
+    rw [Cnt.cntFix_cons, Cnt.count_cons] at hc
+    have hrest : xs.count a ≤ cntFix a ds := by split at hc <;> split at hc <;> omega
+    have hxa : x = a → d.1 = a ∧ d.2 = a := by
+      intro hxa; rw [if_pos hxa] at hc; split at hc <;> omega
+    refine ⟨?_, Cnt.exclude_keep a h.2 hrest⟩
+    show (excludeVal a d).1 ≤ x ∧ x ≤ (excludeVal a d).2
+    rw [Cnt.excludeVal_eq]; split
+    · simp; omega
+    · split <;> (try simp) <;> omega
+  | [], _ :: _, h, _ => by simp [inBox] at h
+  | _ :: _, [], h, _ => by simp [inBox] at h
+
+/-- a tuple that takes `a` wherever possible survives `forceVal` -/
+theorem Cnt.force_keep (a : Int) : ∀ {t : List Int} {B : Box}, inBox t B →
+    B.length ≤ t.count a + cntOut a B → inBox t (B.map (forceVal a))
+  | [], [], _, _ => trivial
+  | x :: xs, d :: ds, h, hc => by
+    have hle := Cnt.count_add_out_le a h.2
+    have hx : d.1 ≤ x ∧ x ≤ d.2 := h.1
+    rw [Cnt.cntOut_cons, Cnt.count_cons, List.length_cons] at hc
+    have hrest : ds.length ≤ xs.count a + cntOut a ds := by split at hc <;> split at hc <;> omega
+    have hxa : x ≠ a → d.1 > a ∨ d.2 < a := by
+      intro hxa; rw [if_neg hxa] at hc; split at hc <;> omega
+    refine ⟨?_, Cnt.force_keep a h.2 hrest⟩
+    show (forceVal a d).1 ≤ x ∧ x ≤ (forceVal a d).2
+    rw [Cnt.forceVal_eq]; split
+    · simp; omega
+    · exact hx
+  | [], _ :: _, h, _ => by simp [inBox] at h
+  | _ :: _, [], h, _ => by simp [inBox] at h
+
+theorem Cnt.cntFix_map_exclude (a : Int) : ∀ (B : Box), B.Nonempty →
+    cntFix a (B.map (excludeVal a)) = cntFix a B
+  | [], _ => rfl
+  | d :: ds, h => by
+    have h' := Box.nonempty_cons.mp h
+    rw [List.map_cons, Cnt.cntFix_cons, Cnt.cntFix_cons, Cnt.cntFix_map_exclude a ds h'.2]
+    simp only [Cnt.excludeVal_fix a d h'.1]
+
+theorem Cnt.cntOut_map_force (a : Int) : ∀ (B : Box), cntOut a (B.map (forceVal a)) = cntOut a B
+  | [] => rfl
+  | d :: ds => by
+    rw [List.map_cons, Cnt.cntOut_cons, Cnt.cntOut_cons, Cnt.cntOut_map_force a ds]
+    simp only [Cnt.forceVal_out a d]
+
+/-! ### exactly_eq -/
+
+theorem runAlg_exactlyEq (ps : List Int) (B : Box) :
+    runAlg .exactlyEq ps B = .ok (exactlyEq ps B) := rfl
+
+/-- the five outcomes of `exactlyEq`, with the arithmetic facts that select them -/
+theorem Cnt.exactlyEq_cases (ps : List Int) (B : Box)
+    (h0 : 0 ≤ getI ps 1) (hn : getI ps 1 ≤ B.length) :
+    (exactlyEq ps B = (.inc, B) ∧
+      (getI ps 1 < cntFix (getI ps 0) B ∨ (B.length : Int) < getI ps 1 + cntOut (getI ps 0) B)) ∨
+    (exactlyEq ps B = (.ent, B) ∧
+      (cntFix (getI ps 0) B : Int) = getI ps 1 ∧ getI ps 1 + cntOut (getI ps 0) B = B.length) ∨
+    (exactlyEq ps B = (.cons, B.map (excludeVal (getI ps 0))) ∧
+      (cntFix (getI ps 0) B : Int) = getI ps 1 ∧ getI ps 1 + cntOut (getI ps 0) B < B.length) ∨
+    (exactlyEq ps B = (.cons, B.map (forceVal (getI ps 0))) ∧
+      (cntFix (getI ps 0) B : Int) < getI ps 1 ∧ getI ps 1 + cntOut (getI ps 0) B = B.length) ∨
+    (exactlyEq ps B = (.cons, B) ∧
+      (cntFix (getI ps 0) B : Int) < getI ps 1 ∧ getI ps 1 + cntOut (getI ps 0) B < B.length) := by
+  simp only [exactlyEq]
+  generalize getI ps 0 = a at *
+  generalize getI ps 1 = c at *
+  generalize cntFix a B = f at *
+  generalize cntOut a B = o at *
+  generalize B.length = n at *
+  split
+  · left; refine ⟨rfl, ?_⟩; omega
+  · right
+    rename_i hninc
+    split
+    · left; refine ⟨rfl, ?_⟩
+      rename_i h; simp only [Bool.and_eq_true, beq_iff_eq] at h; omega
+    · right
+      rename_i hnent
+      simp only [Bool.and_eq_true, beq_iff_eq] at hnent
+      split
+      · left; refine ⟨rfl, ?_⟩
+        rename_i h; simp only [beq_iff_eq] at h; omega
+      · right
+        rename_i hmin
+        simp only [beq_iff_eq] at hmin
+        split
+        · left; refine ⟨rfl, ?_⟩
+          rename_i h; simp only [beq_iff_eq] at h; omega
+        · right; refine ⟨rfl, ?_⟩
+          rename_i h; simp only [beq_iff_eq] at h; omega
+
+theorem sound_exactlyEq : Sound .exactlyEq := by
+  intro ps B st B' hc hne hrun
+  rw [runAlg_exactlyEq] at hrun
+  injection hrun with hrun
+  obtain ⟨_, _, h0, hn⟩ := hc
+  simp only [rel]
+  have hfix := fun t (ht : inBox t B) => Cnt.cntFix_le_count (getI ps 0) ht
+  have hout := fun t (ht : inBox t B) => Cnt.count_add_out_le (getI ps 0) ht
+  rcases Cnt.exactlyEq_cases ps B h0 hn with ⟨he, hf⟩ | ⟨he, hf⟩ | ⟨he, hf⟩ | ⟨he, hf⟩ | ⟨he, hf⟩ <;>
+    rw [he] at hrun <;> injection hrun with h1 h2 <;> subst h1 <;> subst h2
+  · refine ⟨fun h => absurd rfl h, fun _ t ht hrel => ?_⟩
+    have := hfix t ht; have := hout t ht; omega
+  · exact ⟨fun _ => ⟨Box.le_refl _, hne, fun t ht _ => ht⟩, fun h => by cases h⟩
+  · refine ⟨fun _ => ⟨Cnt.map_le _ (Cnt.excludeVal_le _) B,
+      Cnt.map_nonempty _ (Cnt.excludeVal_nonempty _) hne, fun t ht hrel => ?_⟩, fun h => by cases h⟩
+    exact Cnt.exclude_keep _ ht (by omega)
+  · refine ⟨fun _ => ⟨Cnt.map_le _ (Cnt.forceVal_le _) B,
+      Cnt.map_nonempty _ (Cnt.forceVal_nonempty _) hne, fun t ht hrel => ?_⟩, fun h => by cases h⟩
+    exact Cnt.force_keep _ ht (by omega)
+  · exact ⟨fun _ => ⟨Box.le_refl _, hne, fun t ht _ => ht⟩, fun h => by cases h⟩
+
+theorem entailOk_exactlyEq : EntailOk .exactlyEq := by
+  intro ps B B' hc hne hrun t ht
+  rw [runAlg_exactlyEq] at hrun
+  injection hrun with hrun
+  obtain ⟨_, _, h0, hn⟩ := hc
+  simp only [rel]
+  rcases Cnt.exactlyEq_cases ps B h0 hn with ⟨he, hf⟩ | ⟨he, hf⟩ | ⟨he, hf⟩ | ⟨he, hf⟩ | ⟨he, hf⟩ <;>
+    rw [he] at hrun <;> injection hrun with h1 h2 <;> (try cases h1)
+  subst h2
+  have := Cnt.cntFix_le_count (getI ps 0) ht
+  have := Cnt.count_add_out_le (getI ps 0) ht
+  omega
+
+theorem groundOk_exactlyEq : GroundOk .exactlyEq := by
+  intro ps B st B' t hc hne hrun hst hB'
+  rw [runAlg_exactlyEq] at hrun
+  injection hrun with hrun
+  obtain ⟨_, _, h0, hn⟩ := hc
+  simp only [relW, rel]
+  have hpf := Cnt.cntFix_pointBox (getI ps 0) t
+  have hpo := Cnt.cntOut_pointBox (getI ps 0) t
+  have hpl : (pointBox t).length = t.length := by simp [pointBox]
+  rcases Cnt.exactlyEq_cases ps B h0 hn with ⟨he, hf⟩ | ⟨he, hf⟩ | ⟨he, hf⟩ | ⟨he, hf⟩ | ⟨he, hf⟩ <;>
+    rw [he] at hrun <;> injection hrun with h1 h2 <;> subst h1
+  · exact absurd rfl hst
+  · subst h2; rw [hB'] at hf; omega
+  · have := Cnt.cntFix_map_exclude (getI ps 0) B hne
+    rw [h2, hB'] at this; omega
+  · have := Cnt.cntOut_map_force (getI ps 0) B
+    have hl : (B.map (forceVal (getI ps 0))).length = B.length := by simp
+    rw [h2, hB'] at this hl; omega
+  · subst h2; rw [hB'] at hf; omega
+
+theorem contractMono_exactlyEq : ContractMono .exactlyEq := by
+  intro ps B B' hc hle
+  simp only [Contract] at *
+  rw [Box.le_length hle]; exact hc
+
+theorem safe_exactlyEq : Safe .exactlyEq := fun ps B _ _ => ⟨_, runAlg_exactlyEq ps B⟩
+
+theorem trigOk_exactlyEq : TrigOk .exactlyEq :=
+  Cnt.trigOk_of_minMax _ sound_exactlyEq (fun _ _ _ => rfl)
+
+/-! ### exactness of exactly_eq -/
+
+theorem Cnt.cntFix_pin (a : Int) (B : Box) (k : Nat) (v : Int) (hk : k < B.length) :
+    cntFix a (Cnt.pin B k v) + (if (getDom B k).1 = a ∧ (getDom B k).2 = a then 1 else 0) =
+      cntFix a B + (if v = a then 1 else 0) := by
+  have := Cnt.filter_length_set (fun d => d.1 == a && d.2 == a) (v, v) B k hk
+  simp only [Bool.and_eq_true, beq_iff_eq, and_self] at this
+  exact this
+
+theorem Cnt.cntOut_pin (a : Int) (B : Box) (k : Nat) (v : Int) (hk : k < B.length) :
+    cntOut a (Cnt.pin B k v) + (if (getDom B k).1 > a ∨ (getDom B k).2 < a then 1 else 0) =
+      cntOut a B + (if v ≠ a then 1 else 0) := by
+  have := Cnt.filter_length_set (fun d => decide (d.1 > a ∨ d.2 < a)) (v, v) B k hk
+  simp only [decide_eq_true_eq] at this
+  have he : (v > a ∨ v < a) ↔ v ≠ a := by omega
+  simp only [he] at this
+  exact this
+
+/-- a tuple with `m` occurrences of `a` and the value `v` at position `k` -/
+theorem Cnt.exists_count_pinned (a : Int) (B : Box) (m : Nat) (k : Nat) (v : Int) (hne : B.Nonempty)
+    (hk : k < B.length) (hv : inDom v (getDom B k))
+    (h1 : cntFix a B ≤ m) (h2 : m + cntOut a B ≤ B.length)
+    (hva : v = a → ¬ ((getDom B k).1 = a ∧ (getDom B k).2 = a) → cntFix a B < m)
+    (hvn : v ≠ a → ¬ ((getDom B k).1 > a ∨ (getDom B k).2 < a) → m + cntOut a B < B.length) :
+    ∃ t, inBox t B ∧ t.count a = m ∧ getI t k = v := by
+  have hf := Cnt.cntFix_pin a B k v hk
+  have ho := Cnt.cntOut_pin a B k v hk
+  unfold inDom at hv
+  obtain ⟨t, ht, hc⟩ := Cnt.exists_count a (Cnt.pin B k v) m (Cnt.pin_nonempty hne k v)
+    (by split at hf <;> split at hf <;> omega)
+    (by rw [Cnt.pin_length]; split at ho <;> split at ho <;> omega)
+  have := Cnt.inBox_pin k v ht hk hv
+  exact ⟨t, this.1, hc, this.2⟩
+
+/-- both bounds of every position are attained by tuples with `m` occurrences of `a`, provided
+    every free domain leaves room for one more non-`a`, and for one more `a` when `a` is a bound -/
+theorem Cnt.bounds_attained (a : Int) (B : Box) (m : Nat) (hne : B.Nonempty)
+    (h1 : cntFix a B ≤ m) (h2 : m + cntOut a B ≤ B.length)
+    (hfree : ∀ d ∈ B, d.1 ≤ a → a ≤ d.2 → ¬ (d.1 = a ∧ d.2 = a) →
+      m + cntOut a B < B.length ∧ ((d.1 = a ∨ d.2 = a) → cntFix a B < m)) :
+    ∀ k, k < B.length →
+      (∃ t, inBox t B ∧ t.count a = m ∧ getI t k = (getDom B k).1) ∧
+      (∃ t, inBox t B ∧ t.count a = m ∧ getI t k = (getDom B k).2) := by
+  intro k hk
+  have hd := Cnt.getDom_mem B k hk
+  have hdne := hne _ hd
+  have hfr := hfree _ hd
+  constructor
+  · apply Cnt.exists_count_pinned a B m k _ hne hk ⟨Int.le_refl _, hdne⟩ h1 h2
+    · intro hv hnf; exact (hfr (by omega) (by omega) hnf).2 (Or.inl hv)
+    · intro hv hno; exact (hfr (by omega) (by omega) (by omega)).1
+  · apply Cnt.exists_count_pinned a B m k _ hne hk ⟨hdne, Int.le_refl _⟩ h1 h2
+    · intro hv hnf; exact (hfr (by omega) (by omega) hnf).2 (Or.inr hv)
+    · intro hv hno; exact (hfr (by omega) (by omega) (by omega)).1
+
+/-- first half of `Exact` for a box whose counters bracket `c` and whose free domains leave room -/
+theorem Cnt.exactlyEq_bounds (ps : List Int) (B : Box) (hne : B.Nonempty) (h0 : 0 ≤ getI ps 1)
+    (h1 : (cntFix (getI ps 0) B : Int) ≤ getI ps 1)
+    (h2 : getI ps 1 + cntOut (getI ps 0) B ≤ B.length)
+    (hfree : ∀ d ∈ B, d.1 ≤ getI ps 0 → getI ps 0 ≤ d.2 → ¬ (d.1 = getI ps 0 ∧ d.2 = getI ps 0) →
+      getI ps 1 + cntOut (getI ps 0) B < B.length ∧
+      ((d.1 = getI ps 0 ∨ d.2 = getI ps 0) → (cntFix (getI ps 0) B : Int) < getI ps 1)) :
+    ∀ k, k < B.length →
+      (∃ t, inBox t B ∧ rel .exactlyEq ps t ∧ getI t k = (getDom B k).1) ∧
+      (∃ t, inBox t B ∧ rel .exactlyEq ps t ∧ getI t k = (getDom B k).2) := by
+  intro k hk
+  have hm : ((getI ps 1).toNat : Int) = getI ps 1 := Int.toNat_of_nonneg h0
+  have := Cnt.bounds_attained (getI ps 0) B (getI ps 1).toNat hne (by omega) (by omega)
+    (fun d hd ha1 ha2 hnf => by
+      have := hfree d hd ha1 ha2 hnf
+      exact ⟨by omega, fun hb => by have := this.2 hb; omega⟩) k hk
+  obtain ⟨⟨t1, ht1, hc1, hg1⟩, ⟨t2, ht2, hc2, hg2⟩⟩ := this
+  simp only [rel]
+  exact ⟨⟨t1, ht1, by omega, hg1⟩, ⟨t2, ht2, by omega, hg2⟩⟩
+
+theorem exact_exactlyEq : Exact .exactlyEq := by
+  intro ps B st B' hc hne hrun hst
+  rw [runAlg_exactlyEq] at hrun
+  injection hrun with hrun
+  obtain ⟨_, _, h0, hn⟩ := hc
+  simp only [runAlg_exactlyEq]
+  rcases Cnt.exactlyEq_cases ps B h0 hn with ⟨he, hf⟩ | ⟨he, hf⟩ | ⟨he, hf⟩ | ⟨he, hf⟩ | ⟨he, hf⟩ <;>
+    rw [he] at hrun <;> injection hrun with h1 h2 <;> subst h1 <;> subst h2
+  · exact absurd rfl hst
+  · -- entailed: no free domain
+    refine ⟨Cnt.exactlyEq_bounds ps B hne h0 (by omega) (by omega) (fun d hd ha1 ha2 hnf => ?_),
+      ⟨.ent, by rw [he], by simp⟩⟩
+    have := Cnt.fix_add_out_lt (getI ps 0) B hne ⟨d, hd, ha1, ha2, hnf⟩
+    omega
+  · -- `a` was pushed out of the free domains
+    have hne' : Box.Nonempty (B.map (excludeVal (getI ps 0))) :=
+      Cnt.map_nonempty _ (Cnt.excludeVal_nonempty _) hne
+    have hfx := Cnt.cntFix_map_exclude (getI ps 0) B hne
+    have hle := Cnt.fix_add_out_le (getI ps 0) _ hne'
+    have hlen : (B.map (excludeVal (getI ps 0))).length = B.length := by simp
+    refine ⟨Cnt.exactlyEq_bounds ps _ hne' h0 (by omega) (by omega) (fun e he' ha1 ha2 hnf => ?_), ?_⟩
+    · have hlt := Cnt.fix_add_out_lt (getI ps 0) _ hne' ⟨e, he', ha1, ha2, hnf⟩
+      refine ⟨by omega, fun hb => ?_⟩
+      obtain ⟨d, hd, rfl⟩ := List.mem_map.mp he'
+      exact absurd (Cnt.excludeVal_bound _ d (hne d hd) hb) hnf
+    · rcases Cnt.exactlyEq_cases ps (B.map (excludeVal (getI ps 0))) h0 (by omega) with
+        ⟨he2, hf2⟩ | ⟨he2, hf2⟩ | ⟨he2, hf2⟩ | ⟨he2, hf2⟩ | ⟨he2, hf2⟩
+      · omega
+      · exact ⟨.ent, by rw [he2], by simp⟩
+      · exact ⟨.cons, by rw [he2, Cnt.map_idem _ (Cnt.excludeVal_idem _)], by simp⟩
+      · omega
+      · omega
+  · -- the free domains were fixed to `a`
+    have hne' : Box.Nonempty (B.map (forceVal (getI ps 0))) :=
+      Cnt.map_nonempty _ (Cnt.forceVal_nonempty _) hne
+    have hox := Cnt.cntOut_map_force (getI ps 0) B
+    have hle := Cnt.fix_add_out_le (getI ps 0) _ hne'
+    have hlen : (B.map (forceVal (getI ps 0))).length = B.length := by simp
+    refine ⟨Cnt.exactlyEq_bounds ps _ hne' h0 (by omega) (by omega) (fun e he' ha1 ha2 hnf => ?_), ?_⟩
+    · obtain ⟨d, hd, rfl⟩ := List.mem_map.mp he'
+      exact absurd (Cnt.forceVal_free _ d ha1 ha2) hnf
+    · rcases Cnt.exactlyEq_cases ps (B.map (forceVal (getI ps 0))) h0 (by omega) with
+        ⟨he2, hf2⟩ | ⟨he2, hf2⟩ | ⟨he2, hf2⟩ | ⟨he2, hf2⟩ | ⟨he2, hf2⟩
+      · omega
+      · exact ⟨.ent, by rw [he2], by simp⟩
+      · omega
+      · exact ⟨.cons, by rw [he2, Cnt.map_idem _ (Cnt.forceVal_idem _)], by simp⟩
+      · omega
+  · -- nothing to do: both counters are slack
+    refine ⟨Cnt.exactlyEq_bounds ps B hne h0 (by omega) (by omega) (fun d hd ha1 ha2 hnf => ?_),
+      ⟨.cons, by rw [he], by simp⟩⟩
+    exact ⟨by omega, fun _ => by omega⟩
+
+/-! ### exactly_true: on Boolean domains it is `exactly_eq` with `a = 1` -/
+
+theorem runAlg_exactlyTrue (ps : List Int) (B : Box) :
+    runAlg .exactlyTrue ps B = .ok (exactlyTrue ps B) := rfl
+
+theorem Cnt.exactlyTrue_eq (ps : List Int) (B : Box) (hw : B.within 0 1) (hne : B.Nonempty) :
+    exactlyTrue ps B = exactlyEq [1, getI ps 0] B := by
+  have hOut : (B.filter (fun d => decide (d.2 < 1))).length = cntOut 1 B := by
+    unfold cntOut
+    congr 1
+    apply List.filter_congr
+    intro d hd
+    have := hw d hd; have := hne d hd
+    simp only [decide_eq_decide]; omega
+  have hFix : (B.filter (fun d => d.1 == 1 && d.2 == 1)).length = cntFix 1 B := rfl
+  have hEx : B.map (fun d => if d.1 == 0 && d.2 == 1 then (d.1, 0) else d) = B.map (excludeVal 1) := by
+    apply List.map_congr_left
+    intro d hd
+    have := hw d hd; have := hne d hd
+    rw [Cnt.excludeVal_eq]
+    simp only [Bool.and_eq_true, beq_iff_eq]
+    by_cases h : d.1 = 0 ∧ d.2 = 1
+    · rw [if_pos h, if_neg (by omega), if_pos (by omega)]; rfl
+    · rw [if_neg h, if_neg (by omega), if_neg (by omega)]
+  have hFo : B.map (fun d => if d.1 == 0 && d.2 == 1 then (1, d.2) else d) = B.map (forceVal 1) := by
+    apply List.map_congr_left
+    intro d hd
+    have := hw d hd; have := hne d hd
+    rw [Cnt.forceVal_eq]
+    simp only [Bool.and_eq_true, beq_iff_eq]
+    by_cases h : d.1 = 0 ∧ d.2 = 1
+    · rw [if_pos h, if_pos (by omega), h.2]
+    · rw [if_neg h]
+      by_cases h' : d.1 ≤ 1 ∧ 1 ≤ d.2
+      · rw [if_pos h']
+        have h1 : d.1 = 1 := by omega
+        have h2 : d.2 = 1 := by omega
+        exact Prod.ext h1 h2
+      · rw [if_neg h']
+  have hg0 : getI [1, getI ps 0] 0 = 1 := rfl
+  have hg1 : getI [1, getI ps 0] 1 = getI ps 0 := rfl
+  simp only [exactlyTrue, exactlyEq, hOut, hFix, hEx, hFo, hg0, hg1]
+
+theorem Cnt.contract_exactlyTrue {ps : List Int} {B : Box} (hc : Contract .exactlyTrue ps B) :
+    Contract .exactlyEq [1, getI ps 0] B := by
+  obtain ⟨_, h1, _, h0, hn⟩ := hc
+  exact ⟨rfl, h1, h0, hn⟩
+
+theorem Cnt.runAlg_exactlyTrue_eq {ps : List Int} {B : Box} (hc : Contract .exactlyTrue ps B)
+    (hne : B.Nonempty) : runAlg .exactlyTrue ps B = runAlg .exactlyEq [1, getI ps 0] B := by
+  rw [runAlg_exactlyTrue, runAlg_exactlyEq, Cnt.exactlyTrue_eq ps B hc.2.2.1 hne]
+
+theorem Cnt.rel_exactlyTrue (ps t : List Int) :
+    rel .exactlyTrue ps t ↔ rel .exactlyEq [1, getI ps 0] t := Iff.rfl
+
+theorem sound_exactlyTrue : Sound .exactlyTrue := by
+  intro ps B st B' hc hne hrun
+  rw [Cnt.runAlg_exactlyTrue_eq hc hne] at hrun
+  exact sound_exactlyEq _ B st B' (Cnt.contract_exactlyTrue hc) hne hrun
+
+theorem entailOk_exactlyTrue : EntailOk .exactlyTrue := by
+  intro ps B B' hc hne hrun
+  rw [Cnt.runAlg_exactlyTrue_eq hc hne] at hrun
+  exact entailOk_exactlyEq _ B B' (Cnt.contract_exactlyTrue hc) hne hrun
+
+theorem groundOk_exactlyTrue : GroundOk .exactlyTrue := by
+  intro ps B st B' t hc hne hrun hst hB'
+  rw [Cnt.runAlg_exactlyTrue_eq hc hne] at hrun
+  exact groundOk_exactlyEq _ B st B' t (Cnt.contract_exactlyTrue hc) hne hrun hst hB'
+
+theorem Cnt.within_of_le {B' B : Box} {lo hi : Int} (hle : Box.le B' B)
+    (hw : B.within lo hi) : B'.within lo hi := by
+  intro d hd
+  obtain ⟨k, hk, rfl⟩ := List.getElem_of_mem hd
+  have hl := Box.le_length hle
+  have h1 := Box.le_get k hle (by omega)
+  have h2 := hw _ (Cnt.getDom_mem B k (by omega))
+  rw [Cnt.getDom_eq B' k hk] at h1
+  omega
+
+theorem contractMono_exactlyTrue : ContractMono .exactlyTrue := by
+  intro ps B B' hc hle
+  obtain ⟨h1, h2, hw, h0, hn⟩ := hc
+  refine ⟨h1, ?_, Cnt.within_of_le hle hw, h0, ?_⟩ <;> rw [Box.le_length hle] <;> assumption
+
+theorem safe_exactlyTrue : Safe .exactlyTrue := fun ps B _ _ => ⟨_, runAlg_exactlyTrue ps B⟩
+
+theorem trigOk_exactlyTrue : TrigOk .exactlyTrue :=
+  Cnt.trigOk_of_minMax _ sound_exactlyTrue (fun _ _ _ => rfl)
+
+theorem exact_exactlyTrue : Exact .exactlyTrue := by
+  intro ps B st B' hc hne hrun hst
+  rw [Cnt.runAlg_exactlyTrue_eq hc hne] at hrun
+  have hE := exact_exactlyEq _ B st B' (Cnt.contract_exactlyTrue hc) hne hrun hst
+  have hS := (sound_exactlyEq _ B st B' (Cnt.contract_exactlyTrue hc) hne hrun).1 hst
+  have hc' : Contract .exactlyTrue ps B' := contractMono_exactlyTrue ps B B' hc hS.1
+  rw [Cnt.runAlg_exactlyTrue_eq hc' hS.2.1]
+  exact hE
+
+/-! ### and -/
+
+theorem runAlg_and (ps : List Int) (B : Box) : runAlg .and ps B = .ok (andProp ps B) := rfl
+
+/-- the outcomes of `andCore` on a Boolean result domain, with the facts that select them -/
+theorem Cnt.andCore_cases (xs : Box) (y : Dom) (hy : 0 ≤ y.1 ∧ y.1 ≤ y.2 ∧ y.2 ≤ 1) :
+    (andCore xs y = (.inc, xs, y) ∧
+      ((xs.all (fun d => d.1 == 1) = true ∧ y.2 = 0) ∨ (xs.any (fun d => d.2 == 0) = true ∧ y.1 = 1) ∨
+       (xs.all (fun d => d.1 == 1) = true ∧ xs.any (fun d => d.2 == 0) = true))) ∨
+    (andCore xs y = (.cons, xs.map (fun d => (1, d.2)), (1, 1)) ∧
+      xs.any (fun d => d.2 == 0) = false ∧ y.2 = 1 ∧ (xs.all (fun d => d.1 == 1) = true ∨ y.1 = 1)) ∨
+    (andCore xs y = (.cons, xs.map (fun d => if d.1 == 0 then (d.1, 0) else d), (0, 0)) ∧
+      xs.all (fun d => d.1 == 1) = false ∧ y.1 = 0 ∧ (xs.any (fun d => d.2 == 0) = true ∨ y.2 = 0) ∧
+      (xs.filter (fun d => d.1 == 0)).length = 1) ∨
+    (andCore xs y = (.cons, xs, (0, 0)) ∧
+      xs.all (fun d => d.1 == 1) = false ∧ y.1 = 0 ∧ (xs.any (fun d => d.2 == 0) = true ∨ y.2 = 0) ∧
+      (xs.filter (fun d => d.1 == 0)).length ≠ 1) ∨
+    (andCore xs y = (.cons, xs, y) ∧
+      xs.all (fun d => d.1 == 1) = false ∧ xs.any (fun d => d.2 == 0) = false ∧ y.1 = 0 ∧ y.2 = 1) := by
+  obtain ⟨y1, y2⟩ := y
+  simp only at hy
+  simp only [andCore]
+  generalize xs.any (fun d => d.2 == 0) = az
+  generalize xs.all (fun d => d.1 == 1) = ao
+  have h1 : y1 = 0 ∨ y1 = 1 := by omega
+  have h2 : y2 = 0 ∨ y2 = 1 := by omega
+  by_cases hf : (xs.filter (fun d => d.1 == 0)).length = 1 <;>
+  rcases h1 with rfl | rfl <;> rcases h2 with rfl | rfl <;> cases az <;> cases ao <;> simp [hf] <;> omega
+
+/-- the decomposition `B = xs ++ [y]` under the contract of `and` -/
+theorem Cnt.and_split {ps : List Int} {B : Box} (hc : Contract .and ps B) (hne : B.Nonempty) :
+    ∃ xs y, B = xs ++ [y] ∧ Box.within xs 0 1 ∧ Box.Nonempty xs ∧ (0 ≤ y.1 ∧ y.1 ≤ y.2 ∧ y.2 ≤ 1) := by
+  obtain ⟨hl, hw⟩ := hc
+  have hB : B ≠ [] := by intro h; subst h; simp at hl
+  have hs := Cnt.front_back B hB
+  refine ⟨B.front, B.back, hs, ?_⟩
+  rw [hs, Cnt.within_snoc] at hw
+  rw [hs, Cnt.nonempty_snoc] at hne
+  exact ⟨hw.1, hne.1, hw.2.1, hne.2, hw.2.2⟩
+
+theorem Cnt.andProp_snoc (ps : List Int) (xs : Box) (y : Dom) :
+    andProp ps (xs ++ [y]) = ((andCore xs y).1, (andCore xs y).2.1 ++ [(andCore xs y).2.2]) := by
+  simp [andProp]
+
+theorem Cnt.inBox_mem_left : ∀ {ts : List Int} {xs : Box}, inBox ts xs → ∀ x ∈ ts, ∃ d ∈ xs, inDom x d
+  | [], [], _, _, hx => by simp at hx
+  | x' :: ts, d :: ds, h, x, hx => by
+    rcases List.mem_cons.mp hx with rfl | hx
+    · exact ⟨d, by simp, h.1⟩
+    · obtain ⟨e, he, hi⟩ := Cnt.inBox_mem_left h.2 x hx
+      exact ⟨e, by simp [he], hi⟩
+  | [], _ :: _, h, _, _ => by simp [inBox] at h
+  | _ :: _, [], h, _, _ => by simp [inBox] at h
+
+theorem Cnt.inBox_mem_right : ∀ {ts : List Int} {xs : Box}, inBox ts xs → ∀ d ∈ xs, ∃ x ∈ ts, inDom x d
+  | [], [], _, _, hd => by simp at hd
+  | x :: ts, d' :: ds, h, d, hd => by
+    rcases List.mem_cons.mp hd with rfl | hd
+    · exact ⟨x, by simp, h.1⟩
+    · obtain ⟨e, he, hi⟩ := Cnt.inBox_mem_right h.2 d hd
+      exact ⟨e, by simp [he], hi⟩
+  | [], _ :: _, h, _, _ => by simp [inBox] at h
+  | _ :: _, [], h, _, _ => by simp [inBox] at h
+
+theorem Cnt.inBox_map (f : Dom → Dom) : ∀ {ts : List Int} {xs : Box}, inBox ts xs →
+    (∀ x d, x ∈ ts → d ∈ xs → inDom x d → inDom x (f d)) → inBox ts (xs.map f)
+  | [], [], _, _ => trivial
+  | x :: ts, d :: ds, h, hf =>
+    ⟨hf x d (by simp) (by simp) h.1,
+     Cnt.inBox_map f h.2 (fun x' d' hx hd => hf x' d' (by simp [hx]) (by simp [hd]))⟩
+  | [], _ :: _, h, _ => by simp [inBox] at h
+  | _ :: _, [], h, _ => by simp [inBox] at h
+
+theorem Cnt.all_min1 {xs : Box} (h : xs.all (fun d => d.1 == 1) = true) : ∀ d ∈ xs, d.1 = 1 := by
+  simpa [List.all_eq_true] using h
+
+theorem Cnt.not_all_min1 {xs : Box} (hw : Box.within xs 0 1) (hne : Box.Nonempty xs)
+    (h : xs.all (fun d => d.1 == 1) = false) : ∃ d ∈ xs, d.1 = 0 := by
+  simp only [List.all_eq_false, beq_iff_eq] at h
+  obtain ⟨d, hd, h1⟩ := h
+  have := hw d hd; have := hne d hd
+  exact ⟨d, hd, by omega⟩
+
+theorem Cnt.any_max0 {xs : Box} (h : xs.any (fun d => d.2 == 0) = true) : ∃ d ∈ xs, d.2 = 0 := by
+  simpa [List.any_eq_true] using h
+
+theorem Cnt.not_any_max0 {xs : Box} (hw : Box.within xs 0 1) (hne : Box.Nonempty xs)
+    (h : xs.any (fun d => d.2 == 0) = false) : ∀ d ∈ xs, d.2 = 1 := by
+  simp only [List.any_eq_false, beq_iff_eq] at h
+  intro d hd
+  have := hw d hd; have := hne d hd; have := h d hd
+  omega
+
+/-- all components are 1 when all minima are -/
+theorem Cnt.ones_of_all {ts : List Int} {xs : Box} (hw : Box.within xs 0 1) (ht : inBox ts xs)
+    (h : xs.all (fun d => d.1 == 1) = true) : ∀ x ∈ ts, x = 1 := by
+  intro x hx
+  obtain ⟨d, hd, hi⟩ := Cnt.inBox_mem_left ht x hx
+  have := Cnt.all_min1 h d hd; have := hw d hd
+  unfold inDom at hi; omega
+
+/-- some component is 0 when some maximum is -/
+theorem Cnt.zero_of_any {ts : List Int} {xs : Box} (hw : Box.within xs 0 1) (ht : inBox ts xs)
+    (h : xs.any (fun d => d.2 == 0) = true) : ∃ x ∈ ts, x = 0 := by
+  obtain ⟨d, hd, h0⟩ := Cnt.any_max0 h
+  obtain ⟨x, hx, hi⟩ := Cnt.inBox_mem_right ht d hd
+  have := hw d hd
+  unfold inDom at hi
+  exact ⟨x, hx, by omega⟩
+
+/-- the unique candidate must be the zero -/
+theorem Cnt.unique_candidate : ∀ {ts : List Int} {xs : Box}, Box.within xs 0 1 → inBox ts xs →
+    (xs.filter (fun d => d.1 == 0)).length = 1 → (∃ x ∈ ts, x ≠ 1) →
+    inBox ts (xs.map (fun d => if d.1 == 0 then (d.1, 0) else d))
+  | [], [], _, _, _, _ => trivial
+  | x :: ts, d :: ds, hw, ht, hf, hex => by
+    have hwd := hw d (by simp)
+    have hw' : Box.within ds 0 1 := fun e he => hw e (by simp [he])
+    have hx : d.1 ≤ x ∧ x ≤ d.2 := ht.1
+    simp only [List.filter_cons] at hf
+    by_cases hd : d.1 = 0
+    · -- this is the candidate; nobody else is, so all the others are 1
+      have hd' : (d.1 == 0) = true := by simp [hd]
+      rw [if_pos hd'] at hf
+      have hnil : ds.filter (fun d => d.1 == 0) = [] := by
+        apply List.eq_nil_of_length_eq_zero; simpa using hf
+      have hrest : ∀ e ∈ ds, ¬ e.1 = 0 := by
+        intro e he h0
+        have : e ∈ ds.filter (fun d => d.1 == 0) := List.mem_filter.mpr ⟨he, by simp [h0]⟩
+        rw [hnil] at this; simp at this
+      have hones : ∀ x' ∈ ts, x' = 1 := by
+        intro x' hx'
+        obtain ⟨e, he, hi⟩ := Cnt.inBox_mem_left ht.2 x' hx'
+        have := hw' e he; have := hrest e he
+        unfold inDom at hi; omega
+      have hx1 : x ≠ 1 := by
+        obtain ⟨x', hx', hne⟩ := hex
+        rcases List.mem_cons.mp hx' with rfl | hx'
+        · exact hne
+        · exact absurd (hones x' hx') hne
+      refine ⟨?_, ?_⟩
+      · show inDom x (if (d.1 == 0) = true then (d.1, 0) else d)
+        rw [if_pos hd']; unfold inDom; simp only; omega
+      · refine Cnt.inBox_map _ ht.2 (fun x' e _ he hi => ?_)
+        have : ¬ (e.1 == 0) = true := by simpa using hrest e he
+        rw [if_neg this]; exact hi
+    · have hd' : ¬ (d.1 == 0) = true := by simpa using hd
+      rw [if_neg hd'] at hf
+      have hx1 : x = 1 := by omega
+      have hex' : ∃ x' ∈ ts, x' ≠ 1 := by
+        obtain ⟨x', hx', hne⟩ := hex
+        rcases List.mem_cons.mp hx' with rfl | hx'
+        · exact absurd hx1 hne
+        · exact ⟨x', hx', hne⟩
+      refine ⟨?_, Cnt.unique_candidate hw' ht.2 hf hex'⟩
+      show inDom x (if (d.1 == 0) = true then (d.1, 0) else d)
+      rw [if_neg hd']; exact ht.1
+  | [], _ :: _, _, h, _, _ => by simp [inBox] at h
+  | _ :: _, [], _, h, _, _ => by simp [inBox] at h
+
+theorem Cnt.rel_and_snoc (ps ts : List Int) (v : Int) :
+    rel .and ps (ts ++ [v]) ↔ (v = 1 ∧ ∀ x ∈ ts, x = 1) ∨ (v = 0 ∧ ∃ x ∈ ts, x ≠ 1) := by
+  simp only [rel, Cnt.tFront_snoc, Cnt.tBack_snoc]
+
+theorem sound_and : Sound .and := by
+  intro ps B st B' hc hne hrun
+  obtain ⟨xs, y, rfl, hw, hnx, hy⟩ := Cnt.and_split hc hne
+  rw [runAlg_and, Cnt.andProp_snoc] at hrun
+  injection hrun with hrun
+  rcases Cnt.andCore_cases xs y hy with ⟨he, hf⟩ | ⟨he, hf⟩ | ⟨he, hf⟩ | ⟨he, hf⟩ | ⟨he, hf⟩ <;>
+    rw [he] at hrun <;> injection hrun with h1 h2 <;> subst h1 <;> subst h2
+  · -- inconsistent
+    refine ⟨fun h => absurd rfl h, fun _ t ht hrel => ?_⟩
+    obtain ⟨ts, v, rfl, hts, hv⟩ := Cnt.inBox_snoc_elim ht
+    rw [Cnt.rel_and_snoc] at hrel
+    unfold inDom at hv
+    rcases hf with ⟨hall, hy2⟩ | ⟨hany, hy1⟩ | ⟨hall, hany⟩
+    · have hones := Cnt.ones_of_all hw hts hall
+      rcases hrel with ⟨hv1, _⟩ | ⟨_, x, hx, hx1⟩
+      · omega
+      · exact hx1 (hones x hx)
+    · obtain ⟨x, hx, hx0⟩ := Cnt.zero_of_any hw hts hany
+      rcases hrel with ⟨_, hones⟩ | ⟨hv0, _⟩
+      · have := hones x hx; omega
+      · omega
+    · obtain ⟨x, hx, hx0⟩ := Cnt.zero_of_any hw hts hany
+      have := Cnt.ones_of_all hw hts hall x hx
+      omega
+  · -- result is 1: everything is 1
+    obtain ⟨hany, hy2, hor⟩ := hf
+    have hmax := Cnt.not_any_max0 hw hnx hany
+    refine ⟨fun _ => ⟨?_, ?_, fun t ht hrel => ?_⟩, fun h => by cases h⟩
+    · rw [Cnt.le_snoc]
+      refine ⟨Cnt.map_le_mem _ xs (fun d hd => ?_), ?_⟩
+      · have := hw d hd; have := hnx d hd; simp only; omega
+      · simp only; omega
+    · rw [Cnt.nonempty_snoc]
+      refine ⟨?_, by simp⟩
+      intro e he
+      obtain ⟨d, hd, rfl⟩ := List.mem_map.mp he
+      have := hmax d hd; simp only; omega
+    · obtain ⟨ts, v, rfl, hts, hv⟩ := Cnt.inBox_snoc_elim ht
+      rw [Cnt.rel_and_snoc] at hrel
+      unfold inDom at hv
+      have hboth : v = 1 ∧ ∀ x ∈ ts, x = 1 := by
+        rcases hrel with h | ⟨hv0, x, hx, hx1⟩
+        · exact h
+        · rcases hor with hall | hy1
+          · exact absurd (Cnt.ones_of_all hw hts hall x hx) hx1
+          · omega
+      rw [Cnt.inBox_snoc]
+      refine ⟨Cnt.inBox_map _ hts (fun x d hx _ hi => ?_), ?_⟩
+      · have := hboth.2 x hx; unfold inDom at *; simp only; omega
+      · unfold inDom; simp only; omega
+  · -- result is 0 with a unique candidate
+    obtain ⟨hall, hy1, hor, hlen⟩ := hf
+    refine ⟨fun _ => ⟨?_, ?_, fun t ht hrel => ?_⟩, fun h => by cases h⟩
+    · rw [Cnt.le_snoc]
+      refine ⟨Cnt.map_le_mem _ xs (fun d hd => ?_), ?_⟩
+      · have := hw d hd; have := hnx d hd
+        by_cases h0 : d.1 = 0
+        · simp [h0]; omega
+        · simp [h0]
+      · simp only; omega
+    · rw [Cnt.nonempty_snoc]
+      refine ⟨?_, by simp⟩
+      intro e he
+      obtain ⟨d, hd, rfl⟩ := List.mem_map.mp he
+      have := hnx d hd
+      by_cases h0 : d.1 = 0
+      · simp [h0]
+      · simp [h0]; exact this
+    · obtain ⟨ts, v, rfl, hts, hv⟩ := Cnt.inBox_snoc_elim ht
+      rw [Cnt.rel_and_snoc] at hrel
+      unfold inDom at hv
+      have hboth : v = 0 ∧ ∃ x ∈ ts, x ≠ 1 := by
+        rcases hrel with ⟨hv1, hones⟩ | h
+        · rcases hor with hany | hy2
+          · obtain ⟨x, hx, hx0⟩ := Cnt.zero_of_any hw hts hany
+            have := hones x hx; omega
+          · omega
+        · exact h
+      rw [Cnt.inBox_snoc]
+      refine ⟨Cnt.unique_candidate hw hts hlen hboth.2, ?_⟩
+      unfold inDom; simp only; omega
+  · -- result is 0, several candidates
+    obtain ⟨hall, hy1, hor, hlen⟩ := hf
+    refine ⟨fun _ => ⟨?_, ?_, fun t ht hrel => ?_⟩, fun h => by cases h⟩
+    · rw [Cnt.le_snoc]
+      exact ⟨Box.le_refl _, by simp only; omega⟩
+    · rw [Cnt.nonempty_snoc]; exact ⟨hnx, by simp⟩
+    · obtain ⟨ts, v, rfl, hts, hv⟩ := Cnt.inBox_snoc_elim ht
+      rw [Cnt.rel_and_snoc] at hrel
+      unfold inDom at hv
+      have hv0 : v = 0 := by
+        rcases hrel with ⟨hv1, hones⟩ | h
+        · rcases hor with hany | hy2
+          · obtain ⟨x, hx, hx0⟩ := Cnt.zero_of_any hw hts hany
+            have := hones x hx; omega
+          · omega
+        · exact h.1
+      rw [Cnt.inBox_snoc]
+      exact ⟨hts, by unfold inDom; simp only; omega⟩
+  · exact ⟨fun _ => ⟨Box.le_refl _, hne, fun t ht _ => ht⟩, fun h => by cases h⟩
+
+theorem entailOk_and : EntailOk .and := by
+  intro ps B B' hc hne hrun
+  obtain ⟨xs, y, rfl, hw, hnx, hy⟩ := Cnt.and_split hc hne
+  rw [runAlg_and, Cnt.andProp_snoc] at hrun
+  injection hrun with hrun
+  rcases Cnt.andCore_cases xs y hy with ⟨he, _⟩ | ⟨he, _⟩ | ⟨he, _⟩ | ⟨he, _⟩ | ⟨he, _⟩ <;>
+    rw [he] at hrun <;> injection hrun with h1 _ <;> cases h1
+
+/-- split an equation `xs' ++ [y'] = pointBox t` -/
+theorem Cnt.snoc_eq_pointBox {xs' : Box} {y' : Dom} {t : List Int} (h : xs' ++ [y'] = pointBox t) :
+    ∃ ts v, t = ts ++ [v] ∧ xs' = pointBox ts ∧ y' = (v, v) := by
+  have hne : t ≠ [] := by intro h0; subst h0; simp [pointBox] at h
+  have ht := Cnt.tfront_tback t hne
+  refine ⟨tFront t, tBack t, ht, ?_⟩
+  rw [ht, Cnt.pointBox_snoc] at h
+  have := List.append_inj' h rfl
+  exact ⟨this.1, by simpa using this.2⟩
+
+theorem Cnt.mem_pointBox {ts : List Int} {d : Dom} (h : d ∈ pointBox ts) : ∃ x ∈ ts, d = (x, x) := by
+  obtain ⟨x, hx, rfl⟩ := List.mem_map.mp h
+  exact ⟨x, hx, rfl⟩
+
+theorem groundOk_and : GroundOk .and := by
+  intro ps B st B' t hc hne hrun hst hB'
+  obtain ⟨xs, y, rfl, hw, hnx, hy⟩ := Cnt.and_split hc hne
+  rw [runAlg_and, Cnt.andProp_snoc] at hrun
+  injection hrun with hrun
+  simp only [relW]
+  rcases Cnt.andCore_cases xs y hy with ⟨he, hf⟩ | ⟨he, hf⟩ | ⟨he, hf⟩ | ⟨he, hf⟩ | ⟨he, hf⟩ <;>
+    rw [he] at hrun <;> injection hrun with h1 h2 <;> subst h1 <;> rw [hB'] at h2 <;> simp only at h2 <;>
+    obtain ⟨ts, v, rfl, hxs, hyv⟩ := Cnt.snoc_eq_pointBox h2 <;> rw [Cnt.rel_and_snoc]
+  · exact absurd rfl hst
+  · left
+    simp only [Prod.mk.injEq] at hyv
+    refine ⟨hyv.1.symm, fun x hx => ?_⟩
+    have : (x, x) ∈ pointBox ts := List.mem_map.mpr ⟨x, hx, rfl⟩
+    rw [← hxs] at this
+    obtain ⟨d, _, hd⟩ := List.mem_map.mp this
+    simp only [Prod.mk.injEq] at hd
+    exact hd.1.symm
+  · right
+    simp only [Prod.mk.injEq] at hyv
+    refine ⟨hyv.1.symm, ?_⟩
+    obtain ⟨d, hd, hd0⟩ := Cnt.not_all_min1 hw hnx hf.1
+    have : (fun d : Dom => if d.1 == 0 then (d.1, 0) else d) d ∈ pointBox ts := by
+      rw [← hxs]; exact List.mem_map.mpr ⟨d, hd, rfl⟩
+    obtain ⟨x, hx, hxd⟩ := Cnt.mem_pointBox this
+    simp only [hd0, beq_self_eq_true, if_true, Prod.mk.injEq] at hxd
+    exact ⟨x, hx, by omega⟩
+  · right
+    simp only [Prod.mk.injEq] at hyv
+    refine ⟨hyv.1.symm, ?_⟩
+    obtain ⟨d, hd, hd0⟩ := Cnt.not_all_min1 hw hnx hf.1
+    rw [hxs] at hd
+    obtain ⟨x, hx, rfl⟩ := Cnt.mem_pointBox hd
+    simp only at hd0
+    exact ⟨x, hx, by omega⟩
+  · obtain ⟨_, _, h1, h2⟩ := hf
+    rw [hyv] at h1 h2; simp only at h1 h2; omega
+
+theorem contractMono_and : ContractMono .and := by
+  intro ps B B' hc hle
+  obtain ⟨h1, hw⟩ := hc
+  exact ⟨by rw [Box.le_length hle]; exact h1, Cnt.within_of_le hle hw⟩
+
+theorem safe_and : Safe .and := fun ps B _ _ => ⟨_, runAlg_and ps B⟩
+
+theorem trigOk_and : TrigOk .and :=
+  Cnt.trigOk_of_minMax _ sound_and (fun _ _ _ => rfl)
+
+/-! ### exactness of and -/
+
+theorem Cnt.and_idem_of {ps : List Int} {xs : Box} {y : Dom} {st : Status}
+    (h : andCore xs y = (st, xs, y)) (hst : st ≠ .inc) :
+    ∃ st', runAlg .and ps (xs ++ [y]) = .ok (st', xs ++ [y]) ∧ st' ≠ .inc :=
+  ⟨st, by rw [runAlg_and, Cnt.andProp_snoc, h], hst⟩
+
+theorem Cnt.mem_mins {xs : Box} {d : Dom} (h : d ∈ xs) : d.1 ∈ xs.map (·.1) :=
+  List.mem_map.mpr ⟨d, h, rfl⟩
+
+theorem exact_and : Exact .and := by
+  intro ps B st B' hc hne hrun hst
+  obtain ⟨xs, y, rfl, hw, hnx, hy⟩ := Cnt.and_split hc hne
+  rw [runAlg_and, Cnt.andProp_snoc] at hrun
+  injection hrun with hrun
+  rcases Cnt.andCore_cases xs y hy with ⟨he, hf⟩ | ⟨he, hf⟩ | ⟨he, hf⟩ | ⟨he, hf⟩ | ⟨he, hf⟩ <;>
+    rw [he] at hrun <;> injection hrun with h1 h2 <;> subst h1 <;> simp only at h2 <;> subst h2
+  · exact absurd rfl hst
+  · -- everything is 1
+    obtain ⟨hany, hy2, hor⟩ := hf
+    have hmax := Cnt.not_any_max0 hw hnx hany
+    have hall' : ∀ e ∈ xs.map (fun d : Dom => ((1 : Int), d.2)), e = (1, 1) := by
+      intro e he'
+      obtain ⟨d, hd, rfl⟩ := List.mem_map.mp he'
+      rw [hmax d hd]
+    have hne' : Box.Nonempty (xs.map (fun d : Dom => ((1 : Int), d.2))) := by
+      intro e he'; rw [hall' e he']; simp
+    have hones : ∀ x ∈ (xs.map (fun d : Dom => ((1 : Int), d.2))).map (·.1), x = 1 := by
+      intro x hx
+      obtain ⟨e, he', rfl⟩ := List.mem_map.mp hx
+      rw [hall' e he']
+    have hP : rel .and ps ((xs.map (fun d : Dom => ((1 : Int), d.2))).map (·.1) ++ [1]) := by
+      rw [Cnt.rel_and_snoc]; exact Or.inl ⟨rfl, hones⟩
+    refine ⟨Cnt.snoc_bounds _ _ _ (by simp) (fun j hj w hw' => ?_)
+      ⟨_, Cnt.inBox_mins hne', hP⟩ ⟨_, Cnt.inBox_mins hne', hP⟩, ?_⟩
+    · have hd := hall' _ (Cnt.getDom_mem _ j hj)
+      refine ⟨_, 1, Cnt.inBox_mins hne', ⟨by simp, by simp⟩, hP, ?_⟩
+      rw [Cnt.getI_mins _ j hj]
+      rw [hd] at hw' ⊢
+      simp only at hw' ⊢; omega
+    · have hany' : (xs.map (fun d : Dom => ((1 : Int), d.2))).any (fun d => d.2 == 0) = false := by
+        rw [List.any_eq_false]
+        intro e he'; rw [hall' e he']; simp
+      rcases Cnt.andCore_cases (xs.map (fun d : Dom => ((1 : Int), d.2))) (1, 1) (by simp) with
+        ⟨he2, hf2⟩ | ⟨he2, hf2⟩ | ⟨he2, hf2⟩ | ⟨he2, hf2⟩ | ⟨he2, hf2⟩
+      · rcases hf2 with ⟨_, h⟩ | ⟨h, _⟩ | ⟨_, h⟩
+        · simp at h
+        · have := hany'.symm.trans h; cases this
+        · have := hany'.symm.trans h; cases this
+      · rw [Cnt.map_idem (fun d : Dom => ((1 : Int), d.2)) (fun _ => rfl) xs] at he2
+        exact Cnt.and_idem_of he2 (by simp)
+      · have := hf2.2.1; simp at this
+      · have := hf2.2.1; simp at this
+      · have := hf2.2.2.1; simp at this
+  · -- the result is 0 and the unique candidate was set to 0
+    obtain ⟨hall, hy1, hor, hlen⟩ := hf
+    obtain ⟨d0, hd0, hd00⟩ := Cnt.not_all_min1 hw hnx hall
+    have hmem : ((0 : Int), (0 : Int)) ∈ xs.map (fun d : Dom => if d.1 == 0 then (d.1, 0) else d) :=
+      List.mem_map.mpr ⟨d0, hd0, by simp [hd00]⟩
+    have hground : ∀ e ∈ xs.map (fun d : Dom => if d.1 == 0 then (d.1, 0) else d), e.1 = e.2 := by
+      intro e he'
+      obtain ⟨d, hd, rfl⟩ := List.mem_map.mp he'
+      have := hw d hd; have := hnx d hd
+      by_cases h0 : d.1 = 0
+      · simp [h0]
+      · simp [h0]; omega
+    have hne' : Box.Nonempty (xs.map (fun d : Dom => if d.1 == 0 then (d.1, 0) else d)) := by
+      intro e he'; rw [hground e he']; exact Int.le_refl _
+    have hP : rel .and ps ((xs.map (fun d : Dom => if d.1 == 0 then (d.1, 0) else d)).map (·.1) ++ [0]) := by
+      rw [Cnt.rel_and_snoc]
+      exact Or.inr ⟨rfl, 0, Cnt.mem_mins hmem, by omega⟩
+    refine ⟨Cnt.snoc_bounds _ _ _ (by simp) (fun j hj w hw' => ?_)
+      ⟨_, Cnt.inBox_mins hne', hP⟩ ⟨_, Cnt.inBox_mins hne', hP⟩, ?_⟩
+    · have hd := hground _ (Cnt.getDom_mem _ j hj)
+      refine ⟨_, 0, Cnt.inBox_mins hne', ⟨by simp, by simp⟩, hP, ?_⟩
+      rw [Cnt.getI_mins _ j hj]
+      rcases hw' with rfl | rfl
+      · rfl
+      · exact hd
+    · rcases Cnt.andCore_cases (xs.map (fun d : Dom => if d.1 == 0 then (d.1, 0) else d)) (0, 0) (by simp) with
+        ⟨he2, hf2⟩ | ⟨he2, hf2⟩ | ⟨he2, hf2⟩ | ⟨he2, hf2⟩ | ⟨he2, hf2⟩
+      · rcases hf2 with ⟨h, _⟩ | ⟨_, h⟩ | ⟨h, _⟩
+        · have := Cnt.all_min1 h _ hmem; simp at this
+        · simp at h
+        · have := Cnt.all_min1 h _ hmem; simp at this
+      · have := hf2.2.1; simp at this
+      · rw [Cnt.map_idem (fun d : Dom => if d.1 == 0 then (d.1, 0) else d)
+          (fun d => by by_cases h0 : d.1 = 0 <;> simp [h0]) xs] at he2
+        exact Cnt.and_idem_of he2 (by simp)
+      · exact Cnt.and_idem_of he2 (by simp)
+      · have := hf2.2.2.2; simp at this
+  · -- the result is 0 and there are at least two candidates
+    obtain ⟨hall, hy1, hor, hlen⟩ := hf
+    obtain ⟨d0, hd0, hd00⟩ := Cnt.not_all_min1 hw hnx hall
+    have hlen2 : 2 ≤ (xs.filter (fun d => d.1 == 0)).length := by
+      have : d0 ∈ xs.filter (fun d => d.1 == 0) := List.mem_filter.mpr ⟨hd0, by simp [hd00]⟩
+      have := List.length_pos_of_mem this
+      omega
+    have hP : rel .and ps (xs.map (·.1) ++ [0]) := by
+      rw [Cnt.rel_and_snoc]
+      exact Or.inr ⟨rfl, d0.1, Cnt.mem_mins hd0, by omega⟩
+    refine ⟨Cnt.snoc_bounds _ _ _ (by simp) (fun j hj w hw' => ?_)
+      ⟨_, Cnt.inBox_mins hnx, hP⟩ ⟨_, Cnt.inBox_mins hnx, hP⟩, ?_⟩
+    · have hdne := hnx _ (Cnt.getDom_mem xs j hj)
+      have hin : inDom w (getDom xs j) := by unfold inDom; omega
+      have hpin := Cnt.inBox_pin j w (Cnt.inBox_mins (Cnt.pin_nonempty hnx j w)) hj hin
+      refine ⟨_, 0, hpin.1, ⟨by simp, by simp⟩, ?_, hpin.2⟩
+      rw [Cnt.rel_and_snoc]
+      refine Or.inr ⟨rfl, ?_⟩
+      have hfl := Cnt.filter_length_set (fun d => d.1 == 0) (w, w) xs j hj
+      have hpos : 0 < (List.filter (fun d => d.1 == 0) (Cnt.pin xs j w)).length := by
+        unfold Cnt.pin
+        split at hfl <;> split at hfl <;> omega
+      obtain ⟨e, he'⟩ := List.exists_mem_of_length_pos hpos
+      have he2 := List.mem_filter.mp he'
+      have he0 : e.1 = 0 := by simpa using he2.2
+      exact ⟨e.1, Cnt.mem_mins he2.1, by omega⟩
+    · rcases Cnt.andCore_cases xs (0, 0) (by simp) with
+        ⟨he2, hf2⟩ | ⟨he2, hf2⟩ | ⟨he2, hf2⟩ | ⟨he2, hf2⟩ | ⟨he2, hf2⟩
+      · rcases hf2 with ⟨h, _⟩ | ⟨_, h⟩ | ⟨h, _⟩
+        · have := hall.symm.trans h; cases this
+        · simp at h
+        · have := hall.symm.trans h; cases this
+      · have := hf2.2.1; simp at this
+      · exact absurd hf2.2.2.2 hlen
+      · exact Cnt.and_idem_of he2 (by simp)
+      · have := hf2.2.2.2; simp at this
+  · -- nothing is known: the result is (0, 1), some operand can be 0, all can be 1
+    obtain ⟨hall, hany, hy1, hy2⟩ := hf
+    obtain ⟨d0, hd0, hd00⟩ := Cnt.not_all_min1 hw hnx hall
+    have hmax := Cnt.not_any_max0 hw hnx hany
+    have hP0 : rel .and ps (xs.map (·.1) ++ [0]) := by
+      rw [Cnt.rel_and_snoc]
+      exact Or.inr ⟨rfl, d0.1, Cnt.mem_mins hd0, by omega⟩
+    have hP1 : rel .and ps (xs.map (·.2) ++ [1]) := by
+      rw [Cnt.rel_and_snoc]
+      refine Or.inl ⟨rfl, fun x hx => ?_⟩
+      obtain ⟨d, hd, rfl⟩ := List.mem_map.mp hx
+      exact hmax d hd
+    refine ⟨Cnt.snoc_bounds _ _ _ hy.2.1 (fun j hj w hw' => ?_)
+      ⟨_, Cnt.inBox_mins hnx, by rw [hy1]; exact hP0⟩ ⟨_, Cnt.inBox_maxs hnx, by rw [hy2]; exact hP1⟩,
+      Cnt.and_idem_of he (by simp)⟩
+    rcases hw' with rfl | rfl
+    · exact ⟨_, 0, Cnt.inBox_mins hnx, ⟨by omega, by omega⟩, hP0, Cnt.getI_mins xs j hj⟩
+    · exact ⟨_, 1, Cnt.inBox_maxs hnx, ⟨by omega, by omega⟩, hP1, Cnt.getI_maxs xs j hj⟩
 
 end Nucs
